@@ -92,6 +92,14 @@ def split_cases(draw):
     )
     if spec["delete_old"]:
         spec["delete_old_all"] = draw(st.booleans())
+    # wire-fencing cap (the walker moves by one, so any cap above the top-most wf interface leaves room), lambda_-1, and a translated
+    # copy of the system that puts the cap / lambda_0 / lambda_-1 on 0.0
+    wf = [j for j in range(1, n) if moves[j] == "wf"]
+    if wf and max(wf) <= n - 1 and draw(st.booleans()):
+        spec["cap"] = draw(st.integers(max(wf), n - 1)) + 0.5
+    if draw(st.sampled_from([False, False, True])):
+        spec["lm1"], spec["wall"] = draw(st.sampled_from([-1.5, -2.5])), -4
+    spec["origin"] = draw(st.sampled_from([0.0, 0.0, 0.5, spec["cap"] if spec["cap"] is not None else 1.5, spec["lm1"] if spec["lm1"] is not None else -1.0]))
     return {"spec": spec, "N": N, "points": pts}
 
 
